@@ -28,7 +28,15 @@ RULE = (
     "strip's) own sub-array; above 1600 (rotation) / 40000 (front/trailing) cells the same statements are decided by "
     "O(1) range arithmetic (range(n)[::-1], range slicing and range equality; the closed forms are cross-checked "
     "against the mask / set references on every small case); constructors must raise RegionException iff a "
-    "coordinate is negative or an extent is <= 0. Purity: every Region2D / Region1D / Layout2D / pattern / array "
+    "coordinate is negative or an extent is <= 0. Memory layout: every array handed to rotate_array_via_roe_corner_from (all corners, "
+    "twice-restores with the intermediate fed back as returned and re-laid), Layout2D.original_orientation_from, "
+    "Array2D/Array1D construction feeding extract_*_array_from / original_orientation / "
+    "Layout1D.extract_overscan_array_1d_from, and array[region.slice] is held C-contiguous, Fortran-ordered, as "
+    "a.T.copy().T, as a window of a bigger frame, as a stepped view or as a negative-stride view (backing buffers "
+    "carry sentinels); enum_layouts enumerates frames <=4x4 / <=6x6 x 6 layouts x 4 corners x ~10 regions x "
+    "int/float, given_rotate_extract draws the layout (5/6 non-C kinds, 90% of frames with >1 row and >1 column); "
+    "oracles are computed from np.array(values) (index order); rotated arrays must not share memory with the "
+    "input or its backing buffer. Purity: every Region2D / Region1D / Layout2D / pattern / array "
     "handed to rotate_*, region_after_extraction, front/trailing methods, new_rotated_from, rotated_from_roe_corner, "
     "layout_extracted_from, original_orientation*, extract_*_array_from is value-snapshotted before and compared "
     "after the call; one region object, one pattern and one source layout are rotated for all four corners in turn "
@@ -196,6 +204,69 @@ def pure(ctx, key, mkey, fn, watch, **kw):
     return out
 
 
+LAYOUTS = ["C", "F", "TT", "window", "stepped", "negstride"]
+
+
+def lay(values, kind):
+    """The same values (index order) held in a given memory layout: C-contiguous copy, Fortran-ordered copy,
+    transposed view of the transposed content, window of a bigger frame, stepped view, negative-stride view
+    of the reversed content.  Backing buffers larger than the content hold sentinel values (distinct from any
+    content) so that anything read in memory order instead of index order is visible."""
+    a = np.array(values)
+    if kind == "C":
+        return a
+    def sentinel(shape):
+        n = int(np.prod(shape))
+        return (-7777 - np.arange(n)).reshape(shape).astype(a.dtype)
+    if a.ndim == 1:
+        n = a.shape[0]
+        if kind == "window":
+            big = sentinel((n + 5,))
+            big[2:2 + n] = a
+            return big[2:2 + n]
+        if kind == "stepped":
+            big = sentinel((2 * n,))
+            big[::2] = a
+            return big[::2]
+        if kind == "negstride":
+            return a[::-1].copy()[::-1]
+        return a
+    h, w = a.shape
+    if kind == "F":
+        return np.asfortranarray(a)
+    if kind == "TT":
+        return a.T.copy().T
+    if kind == "window":
+        big = sentinel((h + 5, w + 7))
+        big[2:2 + h, 3:3 + w] = a
+        return big[2:2 + h, 3:3 + w]
+    if kind == "stepped":
+        big = sentinel((2 * h, 2 * w))
+        big[::2, ::2] = a
+        return big[::2, ::2]
+    if kind == "negstride":
+        return a[::-1, ::-1].copy()[::-1, ::-1]
+    raise HarnessError("unknown layout %s" % kind)
+
+
+def with_base(arr):
+    """The array and, for a view, its backing buffer (both are watched for modification)."""
+    return [arr] + ([arr.base] if isinstance(getattr(arr, "base", None), np.ndarray) else [])
+
+
+def layout_labels(arr, kind, ctx):
+    ctx.label("layout:" + kind)
+    a = np.asarray(arr)
+    ctx.label("layout:c-contiguous" if a.flags["C_CONTIGUOUS"] else "layout:non-c-contiguous")
+    if a.ndim == 2 and a.shape[0] > 1 and a.shape[1] > 1:
+        ctx.label("layout:rows>1,cols>1")
+
+
+def no_alias(ctx, key, out, arr, what):
+    ctx.check(not any(np.shares_memory(np.asarray(out), b) for b in with_base(arr)), key,
+              "%s shares memory with its input" % what)
+
+
 def unchanged(ctx, mkey, objs, before, what):
     after = [snap(x) for x in objs]
     ctx.check(before == after, mkey, lambda: "%s: %s -> %s" % (what, str(before)[:200], str(after)[:200]))
@@ -283,11 +354,13 @@ def check_rotate_region(shape, r, corner, ctx, arr=None, ra=None):
         check_rotated_region(R, r, shape, corner, ctx, "rotate-region/reflection/" + ck, "%s input" % form)
         if arr is not None:
             # commutation, using the implementation's own rotation on both sides
-            sub = np.asarray(arr)[r[0]:r[1], r[2]:r[3]]
+            sub = np.asarray(arr)[r[0]:r[1], r[2]:r[3]]       # a (possibly strided) view: region slicing of the input
+            ctx.equal(np.asarray(arr)[aa.Region2D(region=tuple(r)).slice], np.array(arr)[np.ix_(range(r[0], r[1]), range(r[2], r[3]))],
+                      "region2d/slice", "array[region.slice] for region %s" % (r,))
             rot_sub = lu.rotate_array_via_roe_corner_from(array=sub, roe_corner=c)
             ctx.equal(np.asarray(ra)[R.slice], rot_sub, "rotate/commute/" + ck,
                       "rot(arr)[rot(region)] vs rot(arr[region]) for region %s" % (r,))
-            ctx.equal(np.asarray(ra)[R.slice], ref_rot_array(sub, corner), "rotate/commute-reference/" + ck,
+            ctx.equal(np.asarray(ra)[R.slice], ref_rot_array(np.array(sub), corner), "rotate/commute-reference/" + ck,
                       "rot(arr)[rot(region)] vs reference rotation of arr[region] for region %s" % (r,))
         RR = pure(ctx, "rotate-region/twice/" + ck, "rotate-region/mutates-argument",
                   lu.rotate_region_via_roe_corner_from, [R, region_in], region=R, shape_native=shape, roe_corner=c)
@@ -298,21 +371,29 @@ def check_rotate_region(shape, r, corner, ctx, arr=None, ra=None):
     return first
 
 
-def check_rotate_util(arr, r, corner, ctx):
-    """layout_util level: array flips, region reflection, commutation, involution."""
+def check_rotate_util(arr, r, corner, ctx, layout="C"):
+    """layout_util level: array flips, region reflection, commutation, involution.  `arr` may be held in any
+    memory layout (`layout` names it); every oracle is computed from np.array(arr), i.e. in index order."""
     lu = _util()
     h, w = arr.shape
     c = tuple(corner)
     ck = ckey(corner)
+    vals = np.array(arr)
 
     ra = pure(ctx, "rotate-array/" + ck, "rotate-array/mutates-argument", lu.rotate_array_via_roe_corner_from,
-              [arr], array=arr, roe_corner=c)
-    want_ra = ref_rot_array(arr, corner)
-    ctx.equal(ra, want_ra, "rotate-array/orientation/" + ck, "rotated array vs index-reflection reference")
-    ra_in = np.asarray(ra)
-    rra = pure(ctx, "rotate-array/twice/" + ck, "rotate-array/mutates-argument", lu.rotate_array_via_roe_corner_from,
-               [ra_in, arr], array=ra_in, roe_corner=c)
-    ctx.equal(rra, arr, "rotate-array/involution/" + ck, "rotating the array twice")
+              with_base(arr), array=arr, roe_corner=c)
+    want_ra = ref_rot_array(vals, corner)
+    ctx.equal(ra, want_ra, "rotate-array/orientation/" + ck,
+              "rotated array vs index-reflection reference (input layout %s)" % layout)
+    no_alias(ctx, "rotate-array/aliases-input", ra, arr, "rotated array (corner %s, layout %s)" % (c, layout))
+    # twice restores: the intermediate fed back as returned, and re-held in the case's layout
+    for how, ra_in in (("as returned", np.asarray(ra)), ("re-laid " + layout, lay(want_ra, layout))):
+        rra = pure(ctx, "rotate-array/twice/" + ck, "rotate-array/mutates-argument", lu.rotate_array_via_roe_corner_from,
+                   with_base(ra_in) + [arr], array=ra_in, roe_corner=c)
+        ctx.equal(rra, vals, "rotate-array/involution/" + ck, "rotating the array twice (intermediate %s)" % how)
+        no_alias(ctx, "rotate-array/aliases-input", rra, ra_in, "twice-rotated array")
+        if layout == "C":
+            break
     return ra, check_rotate_region((h, w), r, corner, ctx, arr=arr, ra=ra)
 
 
@@ -427,10 +508,11 @@ def check_layout_reuse(shape, regions, start, ctx):
         recheck("rotated_from_roe_corner(%s)" % (c,))
 
 
-def check_rotate_layout(arr, regions, corner, ctx):
+def check_rotate_layout(arr, regions, corner, ctx, layout="C"):
     """Layout2D.rotated_from_roe_corner / new_rotated_from / original_orientation_from."""
     aa = _aa()
     h, w = arr.shape
+    vals = np.array(arr)
     c = tuple(corner)
     ck = ckey(corner)
     want = [rot_want(r, (h, w), corner) for r in regions]
@@ -461,24 +543,28 @@ def check_rotate_layout(arr, regions, corner, ctx):
               % (layout_regions(L0), orig, layout_regions(L2), want))
 
     # the rotated layout knows its original corner: original_orientation_from undoes the rotation
-    ra = ref_rot_array(arr, corner)
+    ra = lay(ref_rot_array(vals, corner), layout)
     back = pure(ctx, "layout/original_orientation_from/" + ck, "layout/original_orientation_from/mutates-argument",
-                L2.original_orientation_from, [ra, L2], array=ra)
-    ctx.equal(back, arr, "layout/original_orientation_from/" + ck, "original_orientation_from(rot(arr))")
+                L2.original_orientation_from, with_base(ra) + [L2], array=ra)
+    ctx.equal(back, vals, "layout/original_orientation_from/" + ck,
+              "original_orientation_from(rot(arr)) (input layout %s)" % layout)
+    no_alias(ctx, "layout/original_orientation_from/aliases-input", back, ra, "original_orientation_from result")
     return L2
 
 
-def check_rotate_arrays(arr, regions, corner, ctx, slim_too=True):
+def check_rotate_arrays(arr, regions, corner, ctx, slim_too=True, layout="C"):
     """Array2D-level entry points: extract_*_array_from on the rotated layout + rotated Array2D, and
     Array2D.original_orientation."""
     aa = _aa()
     h, w = arr.shape
     c = tuple(corner)
     ck = ckey(corner)
-    farr = np.asarray(arr, dtype=float)
+    farr = np.array(arr, dtype=float)
     ra = ref_rot_array(farr, corner)
     L = make_layout((h, w), regions).new_rotated_from(roe_corner=c)
-    A = aa.Array2D.no_mask(values=ra.copy(), pixel_scales=1.0, header=aa.Header(original_roe_corner=c))
+    ra_in = lay(ra, layout)            # the values handed to Array2D are held in the case's memory layout
+    A = aa.Array2D.no_mask(values=ra_in, pixel_scales=1.0, header=aa.Header(original_roe_corner=c))
+    ctx.equal(ra_in, ra, "array2d/constructor-mutates-values", "values handed to Array2D.no_mask (layout %s)" % layout)
 
     for slot, fn, key in (("parallel_overscan", "extract_parallel_overscan_array_2d_from", "layout/extract-parallel-overscan"),
                           ("serial_overscan", "extract_serial_overscan_array_from", "layout/extract-serial-overscan")):
@@ -490,17 +576,19 @@ def check_rotate_arrays(arr, regions, corner, ctx, slim_too=True):
         ctx.equal(np.asarray(got.native), want, key, "%s on rotated array, region %s %s" % (fn, r, ck))
         # and in the unrotated frame
         L0 = make_layout((h, w), regions)
-        A0 = aa.Array2D.no_mask(values=farr.copy(), pixel_scales=1.0)
+        A0 = aa.Array2D.no_mask(values=lay(farr, layout), pixel_scales=1.0)
         got0 = pure(ctx, key, key + "/mutates-argument", getattr(L0, fn), [A0, L0], array=A0)
         ctx.equal(np.asarray(got0.native), farr[r[0]:r[1], r[2]:r[3]], key, "%s region %s" % (fn, r))
 
     # Array2D.original_orientation: the array is held in the rotated frame, its header names the corner
     mask = aa.Mask2D.all_false(shape_native=(h, w), pixel_scales=1.0)
-    An = aa.Array2D(values=ra.copy(), mask=mask, header=aa.Header(original_roe_corner=c), store_native=True)
+    an_in = lay(ra, layout)
+    An = aa.Array2D(values=an_in, mask=mask, header=aa.Header(original_roe_corner=c), store_native=True)
     before = [snap(An)]
     got = An.original_orientation
     ctx.equal(np.asarray(got), farr, "array2d/original-orientation/" + ck,
-              "native-stored Array2D(rot(arr)).original_orientation")
+              "native-stored Array2D(rot(arr)).original_orientation (values layout %s)" % layout)
+    no_alias(ctx, "array2d/original-orientation/aliases-input", got, an_in, "original_orientation result")
     unchanged(ctx, "array2d/original-orientation/mutates-argument", [An], before, "the Array2D changed")
     if slim_too:
         key = "array2d/original-orientation-slim-stored"
@@ -538,6 +626,39 @@ def body_enum_rotate(case, ctx):
     check_rotate_arrays(arr, [r, None, r], corner, ctx)
     if r == full:
         check_rotate_util(arr, None, corner, ctx)
+
+
+def body_enum_layouts(case, ctx):
+    """Small frames x every memory layout x every corner: every array-taking entry point is handed the same
+    values held C-contiguous, Fortran-ordered, as a transposed view, as a window of a bigger frame, as a
+    stepped view and as a negative-stride view; oracles come from the index-order copy."""
+    case = fresh(case)
+    h, w, r, corner, layout = case["h"], case["w"], case["r"], case["c"], case["layout"]
+    idx = np.arange(h * w).reshape(h, w)
+    vals = idx if case["dtype"] == "int" else idx * 0.5 - 3.0
+    arr = lay(vals, layout)
+    layout_labels(arr, layout, ctx)
+    ctx.label(ckey(corner), "dtype:" + case["dtype"])
+    ctx.nt(corner != [1, 0] and not np.asarray(arr).flags["C_CONTIGUOUS"])
+    check_rotate_util(arr, r, corner, ctx, layout=layout)
+    full = [0, h, 0, w]
+    check_rotate_layout(arr, [r, None, full], corner, ctx, layout=layout)
+    check_rotate_arrays(vals, [r, None, r], corner, ctx, layout=layout)
+
+
+def cases_enum_layouts(tier):
+    lim = 4 if tier == "quick" else 6
+    k = 0
+    for h in range(1, lim + 1):
+        for w in range(1, lim + 1):
+            regs = list(all_regions(h, w))
+            step = max(1, len(regs) // 8)
+            regs = regs[::step][:8] + [regs[-1], [0, h, 0, w]]
+            for layout in LAYOUTS:
+                for c in CORNERS:
+                    for r in regs:
+                        k += 1
+                        yield {"h": h, "w": w, "r": r, "c": c, "layout": layout, "dtype": ["int", "float"][k % 2]}
 
 
 def all_regions(h, w):
@@ -1008,10 +1129,16 @@ def check_ctor_1d(t, ctx):
         # Layout1D.extract_overscan_array_1d_from reads exactly the region's pixels
         n = x1 + 2
         vals = np.arange(n, dtype=float) * 1.5 - 2.0
-        A = aa.Array1D.no_mask(values=vals.copy(), pixel_scales=1.0)
+        kind = ["C", "window", "stepped", "negstride"][(x0 + x1) % 4]
+        vin = lay(vals, kind)               # the values handed to Array1D in a cycled 1D memory layout
+        ctx.label("layout1d:" + kind)
+        A = aa.Array1D.no_mask(values=vin, pixel_scales=1.0)
         L = aa.Layout1D(shape_1d=(n,), overscan=tuple(t))
-        got = L.extract_overscan_array_1d_from(array=A)
-        ctx.equal(np.asarray(got.native), vals[x0:x1], "layout1d/extract-overscan", "overscan %s of a length-%d array" % (t, n))
+        got = pure(ctx, "layout1d/extract-overscan", "layout1d/extract-overscan/mutates-argument",
+                   L.extract_overscan_array_1d_from, [A] + with_base(vin), array=A)
+        ctx.equal(np.asarray(got.native), vals[x0:x1], "layout1d/extract-overscan",
+                  "overscan %s of a length-%d array (values layout %s)" % (t, n, kind))
+        ctx.equal(vin[aa.Region1D(region=tuple(t)).slice], vals[x0:x1], "region1d/slice", "array[region.slice], layout %s" % kind)
 
 
 def body_enum_constructors(case, ctx):
@@ -1325,8 +1452,10 @@ def given_large(draw):
 def given_rotate_extract(draw):
     big = draw(st.sampled_from([False, False, True]))
     hi = 40 if big else 12
-    h = draw(st.integers(1, hi))
-    w = draw(st.integers(1, hi))
+    lo = draw(st.sampled_from([1, 2, 2, 2, 2, 2, 2, 2, 2, 2]))     # 1xN / Nx1 frames stay in, but rarely
+    h = draw(st.integers(lo, hi))
+    w = draw(st.integers(lo, hi))
+    layout = draw(st.sampled_from(LAYOUTS))
     regions = [draw(st.one_of(st.none(), region_in(h, w), region_in(h, w))) for _ in range(3)]
     if all(r is None for r in regions):
         regions[draw(st.integers(0, 2))] = draw(region_in(h, w))
@@ -1335,7 +1464,8 @@ def given_rotate_extract(draw):
     corner = draw(st.sampled_from(CORNERS))
     scale = draw(st.sampled_from([1.0, -1.0, 0.5, 3.0]))
     offset = draw(st.integers(-50, 50))
-    return {"h": h, "w": w, "regions": regions, "win": win, "c": corner, "scale": scale, "offset": offset}
+    return {"h": h, "w": w, "regions": regions, "win": win, "c": corner, "scale": scale, "offset": offset,
+            "layout": layout}
 
 
 def body_given_rotate_extract(case, ctx):
@@ -1343,8 +1473,11 @@ def body_given_rotate_extract(case, ctx):
     aa = _aa()
     h, w, regions, win, corner = case["h"], case["w"], case["regions"], case["win"], case["c"]
     c = tuple(corner)
+    layout = case.get("layout", "C")
     idx = np.arange(h * w).reshape(h, w)
-    arr = idx * case["scale"] + case["offset"]      # distinct values, exact in float64
+    vals = idx * case["scale"] + case["offset"]     # distinct values, exact in float64 (index order, C-contiguous)
+    arr = lay(vals, layout)                         # what the implementation is handed: same values, drawn memory layout
+    layout_labels(arr, layout, ctx)
     ctx.label(ckey(corner))
     if h != w:
         ctx.label("shape:nonsquare")
@@ -1365,9 +1498,9 @@ def body_given_rotate_extract(case, ctx):
 
     # 1. rotation: util level per region, layout level, array level
     for r in regions:
-        check_rotate_util(arr, r, corner, ctx)
-    check_rotate_layout(arr, regions, corner, ctx)
-    check_rotate_arrays(idx, regions, corner, ctx)
+        check_rotate_util(arr, r, corner, ctx, layout=layout)
+    check_rotate_layout(arr, regions, corner, ctx, layout=layout)
+    check_rotate_arrays(idx, regions, corner, ctx, layout=layout)
 
     first = next(r for r in regions if r is not None)
     check_rotate_reuse((h, w), first, corner, ctx)
@@ -1388,8 +1521,12 @@ def body_given_rotate_extract(case, ctx):
     Wr = lu.rotate_region_via_roe_corner_from(region=tuple(win), shape_native=(h, w), roe_corner=c)
     Le = Lr.layout_extracted_from(extraction_region=Wr)
     Sub = np.asarray(Ar)[Wr.slice]
-    ctx.equal(Sub, ref_rot_array(arr[win[0]:win[1], win[2]:win[3]], corner), "chain/window-content/" + ckey(corner),
-              "rot(arr)[rot(window)] vs rot(arr[window])")
+    ctx.equal(Sub, ref_rot_array(vals[win[0]:win[1], win[2]:win[3]], corner), "chain/window-content/" + ckey(corner),
+              "rot(arr)[rot(window)] vs rot(arr[window]) (input layout %s)" % layout)
+    # the same window cut straight out of the laid-out input and rotated on its own (a strided view as input)
+    cut = np.asarray(arr)[aa.Region2D(region=tuple(win)).slice]
+    ctx.equal(lu.rotate_array_via_roe_corner_from(array=cut, roe_corner=c), Sub, "chain/window-content/" + ckey(corner),
+              "rot(arr[window]) vs rot(arr)[rot(window)] (input layout %s)" % layout)
     for s, r in zip(SLOTS, regions):
         got = getattr(Le, s)
         if r is None:
@@ -1407,11 +1544,11 @@ def body_given_rotate_extract(case, ctx):
         g = rcoords(got)
         ctx.check(g[1] <= Sub.shape[0] and g[3] <= Sub.shape[1], "chain/outside-window",
                   "slot %s -> %s does not fit %s" % (s, g, Sub.shape))
-        want = ref_rot_array(arr[np.ix_(rows, cols)], corner)
+        want = ref_rot_array(vals[np.ix_(rows, cols)], corner)
         ctx.equal(Sub[got.slice], want, "chain/rotate-then-extract/" + ckey(corner),
                   "slot %s region %s window %s" % (s, r, win))
         if s in ("parallel_overscan", "serial_overscan") and Sub.size <= 400:
-            A = aa.Array2D.no_mask(values=np.array(Sub, dtype=float), pixel_scales=1.0)
+            A = aa.Array2D.no_mask(values=lay(np.array(Sub, dtype=float), layout), pixel_scales=1.0)
             fn = "extract_parallel_overscan_array_2d_from" if s == "parallel_overscan" else "extract_serial_overscan_array_from"
             ext = getattr(Le, fn)(array=A)
             ctx.equal(np.asarray(ext.native), want, "chain/extract-array/" + s, "%s after rotate+extract" % fn)
@@ -1544,6 +1681,10 @@ def _ctor_2d_large(t, ctx):
 SUBCHECKS = [
     SubCheck("enum_rotate", body_enum_rotate, cases=cases_enum_rotate, shards={"quick": 16, "thorough": 16},
              doc="exhaustive: shapes x regions x corners; util, Layout2D and Array2D entry points"),
+    SubCheck("enum_layouts", body_enum_layouts, cases=cases_enum_layouts, shards={"quick": 8, "thorough": 16},
+             doc="frames <=4x4 / <=6x6 x six memory layouts x corners x sample regions, int and float values: "
+                 "rotate_array (orientation, twice-restores, no aliasing, input and backing buffer unchanged), "
+                 "Layout2D.original_orientation_from, Array2D construction + extract_*_array_from + original_orientation"),
     SubCheck("enum_extract", body_enum_extract, cases=cases_enum_extract, shards={"quick": 16, "thorough": 16},
              doc="exhaustive: shapes x regions x windows; region_after_extraction and Layout2D.layout_extracted_from"),
     SubCheck("enum_front_trailing", body_enum_front_trailing, cases=cases_enum_front_trailing,
